@@ -350,7 +350,11 @@ class Gen:
             if len(set(mt)) > 1:
                 t = 'Integer'
             c = self.small(t)
-            nm = ms if t == mt[0] or True else ms
+            nm = ms
+            if t == 'Integer' and all(x in NUM for x in mt) and r.random() < 0.35:
+                # a Number default for Integer measures: the result takes the promoted type (Number) and keeps the fraction
+                c = r.choice([Fraction(5, 2), Fraction(-3, 2), Fraction(1, 4)])
+                nm = [(n, 'Number') for n, _ in ms]
             return self.mapm(node, 'nvl(%s, %s)' % (v, vtl_const(c)), '(bin nvl hole (const %s))' % enc_value(c), nm, op='nvl')
         if k == 'cmp_c':
             op, sxop = r.choice([('=', 'eq'), ('<>', 'ne'), ('<', 'lt'), ('<=', 'le'), ('>', 'gt'), ('>=', 'ge')])
